@@ -9,7 +9,9 @@ HARNESSES = [
     Harness('c14_canonical_form_and_hash', MOD, 900, covers=['a swapped construction reached', 'the hash fed something'],
             desc='all 52x51 ordered pairs: new(a,b)==new(b,a), pair[0]<pair[1], same card set, identical Hasher write sequences; pairs equal iff same set'),
     Harness('c14_index', MOD, 300, desc='Index 0/1 are the smaller/larger card'),
-    Harness('c14_text_both_orders', MOD, 900, desc='all 52x51 four-byte texts: both card orders parse Ok to new(c0,c1)'),
+]
+THOROUGH = [
+    Harness('c14_text_both_orders', MOD, 3600, desc='all 52x51 four-byte texts: both card orders parse Ok to new(c0,c1) (Kani; the quick tier decides the same obligation with Engine M)'),
 ]
 
 
@@ -22,7 +24,7 @@ def main():
     obs = []
     try:
         src = snapshot()
-        hs = [h for h in HARNESSES if not a.only or h.name in a.only.split(',')]
+        hs = [h for h in HARNESSES + (THOROUGH if a.tier == 'thorough' or a.only else []) if not a.only or h.name in a.only.split(',')]
         obs += run_family(src, mods, hs)
         if (not a.only or 'display' in a.only) and os.path.exists(os.path.join(VERIF, 'lib/checks/c14_display.py')):
             import c14_display
